@@ -123,6 +123,8 @@ def printOut : Out → Sexp
   | .helperReply to b => node "helperReply" [ofNat to, printBlock b]
   | .make r qc tc => node "make" [ofNat r, printQC qc, (match tc with | none => .atom "nil" | some t => printTC t)]
   | .entered r _ => node "entered" [ofNat r]
+  | .voted b => node "voted" [printDigest b.digest]
+  | .twoChain b0 b1 _ => node "twoChain" [ofNat b0.round, ofNat b1.round]
 
 structure NodeDriver where
   c : Committee
